@@ -16,6 +16,7 @@ fn plan(case: &Case) -> (Vec<Value>, Vec<(i64, String)>) {
     msgs.push(session::notification("textDocument/didOpen", json!({ "textDocument": { "uri": uri, "languageId": "spl", "version": 1, "text": case.initial } })));
     let mut client = case.initial.clone();
     let mut id = 1;
+    let mut version = 1i64;
     let mut expect = Vec::new();
     for note in &case.notes {
         let note = match note {
@@ -24,6 +25,7 @@ fn plan(case: &Case) -> (Vec<Value>, Vec<(i64, String)>) {
                 msgs.push(session::notification("textDocument/didClose", json!({ "textDocument": { "uri": uri } })));
                 msgs.push(session::notification("textDocument/didOpen", json!({ "textDocument": { "uri": uri, "languageId": "spl", "version": 1, "text": t } })));
                 client = t.clone();
+                version = 1;
                 id += 1;
                 msgs.push(session::request(id, "$/verif/text", json!({ "uri": uri })));
                 expect.push((id, client.clone()));
@@ -40,7 +42,7 @@ fn plan(case: &Case) -> (Vec<Value>, Vec<(i64, String)>) {
         for c in note {
             lsp::apply(&mut client, c);
         }
-        msgs.push(session::notification("textDocument/didChange", json!({ "textDocument": { "uri": uri, "version": 2 }, "contentChanges": cc })));
+        msgs.push(session::notification("textDocument/didChange", json!({ "textDocument": { "uri": uri, "version": session::next_version(&mut version) }, "contentChanges": cc })));
         id += 1;
         msgs.push(session::request(id, "$/verif/text", json!({ "uri": uri })));
         expect.push((id, client.clone()));
